@@ -224,6 +224,21 @@ func runC15(c *core.Ctx) {
 		if fn.Parent() != nil || isPrivateHelper(c, fn) && fn.Signature.Recv() == nil {
 			continue // pure helpers working on a table they are given are checked at their callers
 		}
+		// a private predicate over the tables (nameConflict(name) error, isStaged(id) bool): no
+		// entry leaves it, only a verdict its callers — the transition functions — act on
+		if isPrivateHelper(c, fn) {
+			verdictOnly := fn.Signature.Results().Len() > 0
+			for i := 0; i < fn.Signature.Results().Len(); i++ {
+				t := fn.Signature.Results().At(i).Type()
+				b, isB := t.Underlying().(*types.Basic)
+				if !core.IsErrorType(t) && !(isB && b.Kind() == types.Bool) {
+					verdictOnly = false
+				}
+			}
+			if verdictOnly {
+				continue
+			}
+		}
 		mut := false
 		for _, f := range []*types.Var{staging, services, lastID} {
 			for _, a := range fieldAccesses(fn, f) {
@@ -335,6 +350,43 @@ func checkIDUse(c *core.Ctx, fn *ssa.Function, inc *ssa.Store, staging, lastID, 
 // nameScanBefore: a range over map field m dominates the insert, and inside
 // it a Name equality leads only to error returns.
 func nameScanBefore(fn *ssa.Function, insert ssa.Instruction, m, nameF *types.Var) (bool, string) {
+	return nameScanBeforeD(fn, insert, m, nameF, 0)
+}
+
+func nameScanBeforeD(fn *ssa.Function, insert ssa.Instruction, m, nameF *types.Var, depth int) (bool, string) {
+	// form 3: the scans live in a checking helper returning an error (nameConflict(name)); the
+	// insert is only reached across its nil result, and every nil return of the helper is
+	// itself behind the scan of this table
+	if depth < 2 {
+		for _, call := range core.Calls(fn) {
+			cv, ok := call.(*ssa.Call)
+			if !ok || !core.Dominates(cv, insert) {
+				continue
+			}
+			h := cv.Call.StaticCallee()
+			if h == nil || h == fn || h.Pkg != fn.Pkg || len(h.Blocks) == 0 || h.Signature.Results().Len() != 1 || !core.IsErrorType(h.Signature.Results().At(0).Type()) {
+				continue
+			}
+			the := cv
+			isRes := func(v ssa.Value) bool { return core.Canon(v) == ssa.Value(the) }
+			if !core.Guarded(fn, insert, core.Eq(isRes, core.IsNilConst)) {
+				continue
+			}
+			n, all := 0, true
+			for _, r := range core.Returns(h) {
+				if !successReturn(r) {
+					continue
+				}
+				n++
+				if ok2, _ := nameScanBeforeD(h, r, m, nameF, depth+1); !ok2 {
+					all = false
+				}
+			}
+			if n > 0 && all {
+				return true, ""
+			}
+		}
+	}
 	// form 2: the scan lives in a helper found(table, name) (…, bool) called with
 	// the table; the insert is only reached when it reports "not found"
 	for _, call := range core.Calls(fn) {
